@@ -255,7 +255,7 @@ def rule_D2(ctx, rep, rid='D2'):
     T = Terms(b)
     fl = [bi for bi, t in b.calls() if callee_is(t, SINK_TRAIT + '::flush') and not b.blocks[bi]['cleanup']]
     cnt = count_events(b, lambda x: x in fl)
-    ok = len(fl) == 1 and cnt == {1} and self_field_name(norm(T.call_term(fl[0]))[2][0]) == client_field(cad, 'sink')
+    ok = len(fl) == 1 and cnt == {1} and on_self_path(norm(T.call_term(fl[0]))[2][0], client_field(cad, 'sink'))
     rep.ob(rid, 'client-flush-calls-sink-flush', ok, b.where(fl[0]) if fl else b.where(),
            'StatsdClient::flush calls self.sink.flush() exactly once' if ok else 'StatsdClient::flush does not flush its sink exactly once')
     if not ok:
